@@ -8,6 +8,7 @@
   most once per watched entity.
 -/
 import Cobweb.Proofs.Kill
+import Cobweb.Proofs.Watch
 import Cobweb.Theorems.C01
 import Cobweb.Exec
 
@@ -95,6 +96,107 @@ theorem despawn_at_most_once (acc : St × List Cmd) (e : Nat) :
     after the garbage collection (`frameEnd`). -/
 theorem poll_in_last (s : St) (t : Nat) : (startTop s t .frameEnd).stack = Frame.gc :: Frame.poll :: s.stack := by
   simp [startTop, St.push, St.emit]
+
+
+/-! ### whole-execution theorems (invariant `WatchInv`, `Proofs/Watch.lean`) -/
+
+/-- **No despawn can be missed.** In every reachable state, an entity with despawn reactors is either alive and carries
+    a `DespawnTracker` (its death will be reported), or its death is already on the channel the next poll drains. -/
+theorem despawn_never_missed {p : Prog} {hh : Hist} {s : St} (hr : Reach p hh ({} : St) s) (e : Nat) (hne : s.tblDsp e ≠ []) :
+    (s.alive e = true ∧ s.dspTracker e = true) ∨ e ∈ s.dspChan :=
+  (watch_reach p hh hr).core.watched e hne
+
+/-- Once the channel is drained (a poll has run and nothing died since), every remaining despawn reactor watches a live
+    entity: every death so far has had its reactions scheduled. -/
+theorem drained_means_all_scheduled {p : Prog} {hh : Hist} {s : St} (hr : Reach p hh ({} : St) s) (hch : s.dspChan = [])
+    (e : Nat) (hne : s.tblDsp e ≠ []) : s.alive e = true := by
+  rcases despawn_never_missed hr e hne with h | h
+  · exact h.1
+  · rw [hch] at h; cases h
+
+/-- The poll drains the channel. -/
+theorem poll_drains (s : St) : (pollDespawns s).1.dspChan = [] := by
+  unfold pollDespawns; rw [pollDsp_fold_chan]
+
+/-- **Each death is reported once, and only deaths are reported.** -/
+theorem each_death_once {p : Prog} {hh : Hist} {s : St} (hr : Reach p hh ({} : St) s) :
+    s.dspChan.Nodup ∧ ∀ e ∈ s.dspChan, s.alive e = false :=
+  ⟨(watch_reach p hh hr).core.chanNodup, fun e he => ((watch_reach p hh hr).core.chanGone e he).1⟩
+
+/-- With each death on the channel once, one poll queues exactly one reaction per registered handle of each dead entity,
+    in channel order. -/
+theorem poll_schedules_each_once (es : List Nat) (hnd : es.Nodup) (acc : St × List Cmd) :
+    (es.foldl pollDspStep acc).2 = acc.2 ++ es.flatMap (fun e => (acc.1.tblDsp e).map (fun h => Cmd.reactDsp e h.sys h)) := by
+  induction es generalizing acc with
+  | nil => simp
+  | cons e es ih =>
+    have hnd' := List.nodup_cons.mp hnd
+    rw [List.foldl_cons, ih hnd'.2]
+    simp only [pollDspStep, List.flatMap_cons, List.append_assoc]
+    congr 2
+    have : ∀ x ∈ es, (upd acc.1.tblDsp e [] x).map (fun h => Cmd.reactDsp x h.sys h) =
+        (acc.1.tblDsp x).map (fun h => Cmd.reactDsp x h.sys h) := by
+      intro x hx
+      have : x ≠ e := fun h => hnd'.1 (h ▸ hx)
+      simp [upd, this]
+    clear ih hnd hnd'
+    induction es with
+    | nil => rfl
+    | cons y ys ihy =>
+      simp only [List.flatMap_cons]
+      rw [this y List.mem_cons_self, ihy (fun x hx => this x (List.mem_cons_of_mem _ hx))]
+
+theorem poll_reactions_exact {p : Prog} {hh : Hist} {s : St} (hr : Reach p hh ({} : St) s) :
+    (pollDespawns s).2 = s.dspChan.flatMap (fun e => (s.tblDsp e).map (fun h => Cmd.reactDsp e h.sys h)) := by
+  unfold pollDespawns
+  rw [poll_schedules_each_once _ (each_death_once hr).1]
+  simp
+
+/-- **Every removal reactor has a removal checker**: a component type with a type-wide or an entity-scoped removal reactor
+    is tracked, so the poll drains its removal buffer. -/
+theorem removal_reactors_tracked {p : Prog} {hh : Hist} {s : St} (hr : Reach p hh ({} : St) s) (ty : Nat) :
+    (s.tbl .rem ty ≠ [] → ty ∈ s.tracked) ∧
+    (∀ e l h, s.entReactors e = some l → (⟨.rem, ty⟩, h) ∈ l → ty ∈ s.tracked) :=
+  ⟨(watch_reach p hh hr).core.remTracked ty,
+   fun e l h hl hm => (watch_reach p hh hr).core.entRemTracked e l ⟨.rem, ty⟩ h hl hm rfl⟩
+
+/-- **A despawn reaction is always about a dead entity**: the one being read by a running reactor, and every prepared
+    one. -/
+theorem despawn_reaction_reads_dead {p : Prog} {hh : Hist} {s : St} (hr : Reach p hh ({} : St) s) :
+    (s.trkDsp.reacting = true → s.alive s.trkDsp.curSrc = false) ∧
+    (∀ q ∈ s.trkDsp.prepared, s.alive q.2.1 = false) :=
+  ⟨fun h => ((watch_reach p hh hr).core.curGone h).1, fun q hq => ((watch_reach p hh hr).core.prepGone q hq).1⟩
+
+/-- ... and so is every queued one (in the batch being applied, in a body's pending commands, in the world queue). -/
+theorem queued_despawn_reaction_dead {p : Prog} {hh : Hist} {s : St} (hr : Reach p hh ({} : St) s)
+    (e sys : Nat) (h : Handle) (cs : List Cmd) (hq : s.wq = .reactDsp e sys h :: cs) : s.alive e = false := by
+  have := (watch_reach p hh hr).wq
+  rw [hq] at this
+  exact this.1.1
+
+/-- A tracker only ever sits on a live entity. -/
+theorem tracker_on_live {p : Prog} {hh : Hist} {s : St} (hr : Reach p hh ({} : St) s) (e : Nat) (h : s.dspTracker e = true) :
+    s.alive e = true := (watch_reach p hh hr).core.trkAlive e h
+
+/-- Non-vacuity: one despawn reactor on a spawned entity, the entity is despawned by a plain command in a later operation
+    (its death then waits on the channel), the end of the frame polls: the reaction runs once and nothing is left. -/
+def demoProg : Prog := fun _ _ _ => none
+def demoHist : Hist :=
+  { op := fun t _ => if t < 2 then some .acts else if t = 2 then some .frameEnd else none,
+    act := fun t i _ => match t, i with
+      | 0, 0 => some .spawn
+      | 0, 1 => some (.on .persistent 0 false [.dsp 0])
+      | 1, 0 => some (.despawn 0)
+      | _, _ => none }
+
+example : (exec demoProg demoHist 120 {}).stack = [] ∧ (exec demoProg demoHist 120 {}).dspChan = [] ∧
+    (exec demoProg demoHist 120 {}).tblDsp 0 = [] ∧ (exec demoProg demoHist 120 {}).alive 0 = false ∧
+    ((exec demoProg demoHist 120 {}).trace.filter (fun e => match e with | .body _ _ _ => true | _ => false)).length = 1 := by decide
+
+example : ((exec demoProg demoHist 14 {}).tblDsp 0).length = 1 ∧ (exec demoProg demoHist 14 {}).dspTracker 0 = true := by decide
+
+example : (exec demoProg demoHist 21 {}).stack = [] ∧ (exec demoProg demoHist 21 {}).dspChan = [0] ∧ (exec demoProg demoHist 21 {}).alive 0 = false ∧
+    ((exec demoProg demoHist 21 {}).tblDsp 0).length = 1 := by decide
 
 example : (applyCmd ({ comp := fun _ => [(0, 5)] } : St) (.removeComp 3 0)).removedBuf 0 = [3] := by
   simp [applyCmd, alookup]
